@@ -127,8 +127,11 @@ def case_real(idx, rng, tier, res):
         base = os.path.join(d, 'sub') if sub else d
         os.makedirs(base, exist_ok=True)
         content = {}
+        limit = rng.choice([None, None, 48, 64])
         for ext in present:
             txt = 'content of %s%s #%d\n' % (name, ext, rng.randint(0, 10 ** 6))
+            if limit and rng.random() < 0.6:
+                txt += 'x' * rng.choice([limit - len(txt) - 1, limit - len(txt), limit - len(txt) + 1, 200])
             with open(os.path.join(base, name + ext), 'w') as f:
                 f.write(txt)
             content[name + ext] = txt
@@ -141,6 +144,8 @@ def case_real(idx, rng, tier, res):
         flavour = rng.random() < 0.5
         ask = rng.random() < 0.5
         reader = FileReader(d).setOptions(lowcaseMatching=False)
+        if limit:
+            reader.setOptions(maxMibSize=limit)     # an over-long copy must be refused, never cut
         if kind == 'py':
             b = PyFileBorrower(reader, genTexts=flavour)
             exts = ['.py']
@@ -160,7 +165,7 @@ def case_real(idx, rng, tier, res):
             got = ('err', type(exc).__name__, None)
         except Exception as exc:
             got = ('other', type(exc).__name__, None)
-        cell = {'borrower': kind, 'exts': exts, 'flavour': flavour, 'asked_genTexts': ask,
+        cell = {'borrower': kind, 'exts': exts, 'flavour': flavour, 'asked_genTexts': ask, 'maxMibSize': limit,
                 'present': sorted(present), 'name': name, 'subdir': sub}
         eligible = [name + e for e in (exts or []) if (name + e) in content]
         if got[0] == 'other':
@@ -175,7 +180,7 @@ def case_real(idx, rng, tier, res):
                                   replay=cell, kind=kind)
                 elif got[2] != content[got[1]]:
                     res.violation('real_content', '%r delivered altered content of %s' % (cell, got[1]), replay=cell)
-            elif eligible:
+            elif eligible and not (limit and any(len(content[e]) >= limit for e in eligible)):
                 res.violation('real_not_delivered', '%r: %s exists but the borrower reported %s' % (
                     cell, eligible, got[1]), replay=cell, kind=kind)
         res.count('real_layer_cells')
